@@ -117,3 +117,73 @@ pub fn replay(cases: &[J]) -> J {
     cleanup_scratch();
     rep.finish()
 }
+
+/// C19 at the level of the process: a real SIGINT while the binary runs a query over a long file (impl -> spec, Trace_Sigint.tla)
+pub fn trace_sigint(seed: u64, n: usize) -> Vec<J> {
+    use rand::{Rng, SeedableRng};
+    use std::io::{BufRead, BufReader};
+    let mut rng = rand::rngs::StdRng::seed_from_u64(seed);
+    let dir = scratch();
+    let total: u64 = 300_000;
+    let data = dir.join("long.txt");
+    { let mut s = String::with_capacity(6_000_000); for i in 1..=total { s.push_str(&format!("k=a v={}\n", i)); } std::fs::write(&data, s).unwrap(); }
+    let defs = dir.join("defs.txt");
+    std::fs::write(&defs, "CREATE TABLE t(line = 'k=([a-z]+) v=([0-9]+)', line[1] => k TEXT, line[2] => v INT);\n").unwrap();
+    let mut ev = Vec::new();
+    for i in 0..n {
+        let agg = i % 2 == 1;
+        tick(&json!({"i": i, "agg": agg}));
+        let query = if agg { "SELECT COUNT(*) AS n, MAX(v) AS m FROM t" } else { "SELECT v FROM t" };
+        let mut child = Command::new(cli()).env("TZ", "UTC").env_remove("RUST_BACKTRACE")
+            .args(["-d", defs.to_str().unwrap(), data.to_str().unwrap(), "--show-run-stats", "-c", query])
+            .stdin(Stdio::null()).stdout(Stdio::piped()).stderr(Stdio::piped()).spawn().unwrap();
+        let pid = child.id().to_string();
+        let mut reader = BufReader::new(child.stdout.take().unwrap());
+        let mut lines: Vec<String> = Vec::new();
+        let before: u64 = if agg { 0 } else { rng.gen_range(1..2000) };
+        if agg {
+            // wait until the process is reading the input file (its offset in /proc/<pid>/fdinfo has moved): from then on the query is running
+            let t0 = std::time::Instant::now();
+            'wait: while t0.elapsed().as_secs() < 20 {
+                if let Ok(rd) = std::fs::read_dir(format!("/proc/{}/fd", pid)) {
+                    for e in rd.flatten() {
+                        if std::fs::read_link(e.path()).map(|p| p == data).unwrap_or(false) {
+                            let info = std::fs::read_to_string(format!("/proc/{}/fdinfo/{}", pid, e.file_name().to_string_lossy())).unwrap_or_default();
+                            let pos: u64 = info.lines().find_map(|l| l.strip_prefix("pos:").map(|x| x.trim().parse().unwrap_or(0))).unwrap_or(0);
+                            if pos > 0 { break 'wait; }
+                        }
+                    }
+                } else { break; }
+                std::thread::sleep(std::time::Duration::from_millis(1));
+            }
+            std::thread::sleep(std::time::Duration::from_millis(rng.gen_range(0..60)));
+        } else {
+            let mut buf = String::new();
+            while (lines.len() as u64) < before { buf.clear(); if reader.read_line(&mut buf).unwrap_or(0) == 0 { break; } lines.push(buf.trim_end().to_string()); }
+        }
+        let _ = Command::new("kill").args(["-INT", &pid]).status();
+        let mut buf = String::new();
+        loop { buf.clear(); if reader.read_line(&mut buf).unwrap_or(0) == 0 { break; } lines.push(buf.trim_end().to_string()); }
+        let status = child.wait().unwrap();
+        let mut stderr = String::new();
+        if let Some(mut e) = child.stderr.take() { use std::io::Read; let _ = e.read_to_string(&mut stderr); }
+        let err = lines.iter().any(|l| l.starts_with("Execution error") || l.starts_with("Failed")) || stderr.contains("panicked");
+        let processed: u64 = lines.iter().rev().find(|l| l.starts_with("Executed query in"))
+            .and_then(|l| l.rsplit("processed ").next().and_then(|t| t.split(' ').next()).and_then(|t| t.parse().ok())).unwrap_or(u64::MAX >> 40);
+        let recs: Vec<&String> = lines.iter().filter(|l| !l.starts_with("Executed query in")).collect();
+        let exit = status.code().unwrap_or(255) as u64;
+        if agg {
+            let (mut nn, mut mm) = (0u64, 0u64);
+            if recs.len() == 1 {
+                for part in recs[0].split(", ") { if let Some(x) = part.strip_prefix("n: ") { nn = x.parse().unwrap_or(0); } if let Some(x) = part.strip_prefix("m: ") { mm = x.parse().unwrap_or(0); } }
+            }
+            ev.push(json!({"ev": "sigint", "kind": "agg", "exit": exit, "err": err, "records": recs.len(), "n": nn, "m": mm, "processed": processed, "total": total,
+                           "sample": recs.iter().take(2).collect::<Vec<_>>()}));
+        } else {
+            let prefix_ok = recs.iter().enumerate().all(|(j, l)| **l == format!("v: {}", j + 1));
+            ev.push(json!({"ev": "sigint", "kind": "select", "exit": exit, "err": err, "prefix_ok": prefix_ok, "out": recs.len(), "before": before, "total": total, "processed": processed}));
+        }
+    }
+    cleanup_scratch();
+    ev
+}
